@@ -9,6 +9,7 @@ import (
 	"io"
 	"log"
 	"math"
+	"reflect"
 	"strings"
 
 	"pgregory.net/rapid"
@@ -47,6 +48,27 @@ func (r MyCondLoud) String() string { return "<<loud cond>>" }
 type strLeaf struct{ S string }
 
 func (s strLeaf) String() string { return s.S }
+
+// intStringer: a named integer type with a String method (in the manner of time.Duration); its zero value is a value like any other.
+type intStringer int
+
+func (d intStringer) String() string { return "d" + itoa(int(d)) }
+
+// sliceOp: a user-defined operator whose Go type cannot be compared with == (a slice).
+type sliceOp []string
+
+func (o sliceOp) String() string {
+	if len(o) > 0 {
+		return o[0]
+	}
+	return ""
+}
+func (o sliceOp) Context() string {
+	if len(o) > 1 {
+		return o[1]
+	}
+	return ""
+}
 
 // user-defined operator
 type userOp struct {
@@ -107,9 +129,9 @@ type Val struct {
 	Keys  []string `json:"keys,omitempty"`
 }
 
-func VS(s string) Val   { return Val{K: "str", S: s} }
-func VI(i int64) Val    { return Val{K: "int", I: i} }
-func VNil() Val         { return Val{K: "nil"} }
+func VS(s string) Val     { return Val{K: "str", S: s} }
+func VI(i int64) Val      { return Val{K: "int", I: i} }
+func VNil() Val           { return Val{K: "nil"} }
 func (v Val) IsNil() bool { return v.K == "nil" }
 
 func ptrTo(x any, depth int) any {
@@ -209,6 +231,14 @@ func (v Val) Value() any {
 			d = 1
 		}
 		return ptrTo(v.Elems[0].Value(), d)
+	case "tnil": // a typed nil pointer: an interface value that is NOT nil (an element like any other)
+		switch v.Depth {
+		case 2:
+			return (**int)(nil)
+		case 3:
+			return (*strLeaf)(nil)
+		}
+		return (*int)(nil)
 	case "slice", "array":
 		return v.sliceValue()
 	case "map":
@@ -230,12 +260,19 @@ func (v Val) Value() any {
 				m[k] = &x
 			}
 			return m
-		default:
+		case "int":
 			m := map[string]int{}
 			for i, k := range v.Keys {
 				m[k] = int(v.Elems[i].I)
 			}
 			return m
+		default:
+			et := reflect.TypeOf(v.Elems[0].Value())
+			m := reflect.MakeMap(reflect.MapOf(reflect.TypeOf(""), et))
+			for i, k := range v.Keys {
+				m.SetMapIndex(reflect.ValueOf(k), reflect.ValueOf(v.Elems[i].Value()))
+			}
+			return m.Interface()
 		}
 	case "imap":
 		m := map[int]string{}
@@ -268,60 +305,36 @@ func (v Val) Value() any {
 }
 
 func (v Val) sliceValue() any {
-	ek := "int"
-	if len(v.Elems) > 0 {
-		ek = v.Elems[0].K
-	}
 	n := len(v.Elems)
-	switch ek {
-	case "str":
+	if n == 0 {
 		if v.K == "array" {
-			switch n {
-			case 1:
-				return [1]string{v.Elems[0].S}
-			case 2:
-				return [2]string{v.Elems[0].S, v.Elems[1].S}
-			case 3:
-				return [3]string{v.Elems[0].S, v.Elems[1].S, v.Elems[2].S}
-			}
+			return [0]int{}
 		}
-		s := make([]string, n, n)
-		for i, e := range v.Elems {
-			s[i] = e.S
-		}
-		return s
-	case "ptr":
-		s := make([]*int, n, n)
-		for i, e := range v.Elems {
-			x := int(e.Elems[0].I)
-			s[i] = &x
-		}
-		return s
-	case "f64":
-		s := make([]float64, n, n)
-		for i, e := range v.Elems {
-			s[i] = e.F
-		}
-		return s
-	default:
-		if v.K == "array" {
-			switch n {
-			case 1:
-				return [1]int{int(v.Elems[0].I)}
-			case 2:
-				return [2]int{int(v.Elems[0].I), int(v.Elems[1].I)}
-			case 3:
-				return [3]int{int(v.Elems[0].I), int(v.Elems[1].I), int(v.Elems[2].I)}
-			case 4:
-				return [4]int{int(v.Elems[0].I), int(v.Elems[1].I), int(v.Elems[2].I), int(v.Elems[3].I)}
-			}
-		}
-		s := make([]int, n, n)
-		for i, e := range v.Elems {
-			s[i] = int(e.I)
-		}
-		return s
+		return []int{}
 	}
+	// typed container built by reflection from the element description: []T / [n]T for every
+	// primitive kind T the descriptions know (ints of every width incl. uint8 = byte, floats,
+	// complex, bool, string) and pointers to them; cap == len (capacity is part of the documented
+	// slice comparison). An array is handed over BY VALUE (rv.Interface() copies it).
+	first := v.Elems[0].Value()
+	et := reflect.TypeOf(first)
+	if et == nil {
+		et = reflect.TypeOf((*any)(nil)).Elem()
+	}
+	var rv reflect.Value
+	if v.K == "array" {
+		rv = reflect.New(reflect.ArrayOf(n, et)).Elem()
+	} else {
+		rv = reflect.MakeSlice(reflect.SliceOf(et), n, n)
+	}
+	for i, e := range v.Elems {
+		x := e.Value()
+		if x == nil {
+			continue
+		}
+		rv.Index(i).Set(reflect.ValueOf(x))
+	}
+	return rv.Interface()
 }
 
 // Text is the text a (text/number/bool) leaf must contribute to String(),
@@ -381,8 +394,18 @@ func (o OpDesc) Value() stackage.Operator {
 		return stackage.ComparisonOperator(o.I)
 	case "user":
 		return userOp{o.Text, o.Ctx}
+	case "uslice": // a user operator whose Go type is not comparable
+		return sliceOp{o.Text, o.Ctx}
 	}
 	return nil
+}
+
+// sameOp: operator equality for the harness (never ==: an operator's Go type may be uncomparable).
+func sameOp(a, b stackage.Operator) bool {
+	if a == nil || b == nil {
+		return a == nil && b == nil
+	}
+	return reflect.TypeOf(a) == reflect.TypeOf(b) && a.String() == b.String() && a.Context() == b.Context()
 }
 
 // Accepted: per the C06 statement — non-nil with non-empty text and context.
@@ -390,7 +413,7 @@ func (o OpDesc) Accepted() bool {
 	switch o.K {
 	case "cmp":
 		return true // any ComparisonOperator has non-empty text ("<invalid_operator>" for bogus ones) and context
-	case "user":
+	case "user", "uslice":
 		return o.Text != "" && o.Ctx != ""
 	}
 	return false
@@ -408,12 +431,12 @@ func OpEq() OpDesc { return OpDesc{K: "cmp", I: 1} }
 // ---- Node: description of a tree ------------------------------------------------
 
 const (
-	WrapNative = 0
-	WrapAlias  = 1 // alias value, no String method
-	WrapAliasS = 2 // alias value with wrapped String
-	WrapPtr    = 3 // pointer to alias (with String)
-	WrapPtrNS  = 4 // pointer to alias without String
-	WrapLoud   = 5 // alias whose own String says something else
+	WrapNative  = 0
+	WrapAlias   = 1 // alias value, no String method
+	WrapAliasS  = 2 // alias value with wrapped String
+	WrapPtr     = 3 // pointer to alias (with String)
+	WrapPtrNS   = 4 // pointer to alias without String
+	WrapLoud    = 5 // alias whose own String says something else
 	WrapPtrLoud = 6 // pointer to such an alias
 )
 
@@ -439,8 +462,9 @@ type Node struct {
 	Delim    string     `json:"delim,omitempty"`
 	Encap    [][]string `json:"encap,omitempty"`
 	Wrap     int        `json:"wrap,omitempty"`
-	EqPol    int        `json:"eqpol,omitempty"` // equality closure on this node: 1 accepts everything, 2 rejects everything (stacks and Conditions)
-	Amb      int        `json:"amb,omitempty"` // ambient, semantically neutral settings (AmbXxx bits), applied after the elements are in
+	ValidRej bool       `json:"validrej,omitempty"` // a validity closure that REJECTS the node (stacks and Conditions), installed after assembly
+	EqPol    int        `json:"eqpol,omitempty"`    // equality closure on this node: 1 accepts everything, 2 rejects everything (stacks and Conditions)
+	Amb      int        `json:"amb,omitempty"`      // ambient, semantically neutral settings (AmbXxx bits), applied after the elements are in
 	Elems    []Node     `json:"elems,omitempty"`
 
 	// cond (also uses Paren, NoPad, NoNest, Encap, Wrap)
@@ -564,6 +588,8 @@ const (
 	AmbAll = 1<<iota - 1
 )
 
+var errValidityRejects = fmt.Errorf("the node's validity closure rejects")
+
 var errAmbient = fmt.Errorf("ambient error recorded earlier")
 
 var errEqPolicyRejects = fmt.Errorf("the node's equality closure rejects")
@@ -670,6 +696,9 @@ func buildStack(n Node, o BuildOpts) stackage.Stack {
 	if f := eqPolicyOf(n.EqPol); f != nil {
 		s.SetEqualityPolicy(f)
 	}
+	if n.ValidRej {
+		s.SetValidityPolicy(func(...any) error { return errValidityRejects })
+	}
 	if n.ReadOnly {
 		s.SetReadOnly(true)
 	}
@@ -700,6 +729,9 @@ func buildCond(n Node, o BuildOpts) stackage.Condition {
 	}
 	if f := eqPolicyOf(n.EqPol); f != nil {
 		c.SetEqualityPolicy(f)
+	}
+	if n.ValidRej {
+		c.SetValidityPolicy(func(...any) error { return errValidityRejects })
 	}
 	if n.ReadOnly {
 		c.SetReadOnly(true)
